@@ -519,3 +519,108 @@ func TestC10Batches(t *testing.T) {
 		vstat.Case(fmt.Sprintf("batch/%s/%s/%d/%d/%v/%d", good.endpoint, how, pos, len(items), sameKey, seed), sameKey, "batch:"+good.endpoint, "batch_how:"+how, cls("batch_rejected_whole", err != nil), cls("batch_delivered_some", len(*rec) > 0))
 	})
 }
+
+// TestC10PeerBatches: a peer message may carry partial signatures for several validators. One entry of a
+// drawn position is invalid (signed by another share, for altered content, zero); the same frame is
+// delivered several times to fresh components because the receiver walks the set in map order. Oracle:
+// whatever reaches a subscriber verifies under the public share of its validator and the claimed share.
+func TestC10PeerBatches(t *testing.T) {
+	vstat.Rule("C10", "peer batches: ParSigExMsg frames carrying 2..3 validators of which one entry is invalid (other share, other content with the old signature, zero signature), each frame delivered 6 times to fresh production parsigex components; oracle: every partial that reaches a subscriber verifies under the public share of its validator and claimed share index; non-trivial = always")
+	ctx := context.Background()
+	kinds := []valgen.Kind{}
+	for _, k := range valgen.SignedKinds() {
+		if k.Duty != core.DutySignature {
+			kinds = append(kinds, k)
+		}
+	}
+	rapid.Check(t, func(rt *rapid.T) {
+		n := rapid.SampledFrom([]int{3, 4, 6}).Draw(rt, "n")
+		cl := newCluster(n)
+		meIdx := rapid.IntRange(0, n-1).Draw(rt, "me")
+		from := (meIdx + 1 + rapid.IntRange(0, n-2).Draw(rt, "from")) % n
+		share := from + 1
+		k := kinds[rapid.IntRange(0, len(kinds)-1).Draw(rt, "kind")]
+		seed := int64(rapid.IntRange(1, 1<<30).Draw(rt, "seed"))
+		var peers []peer.ID
+		for i := 0; i < n; i++ {
+			id, err := p2p.PeerIDFromKey(peerKey(i).PubKey())
+			must(err)
+			peers = append(peers, id)
+		}
+		now := cl.bn.GenesisTime.Add(1000 * cl.bn.SlotDur)
+		gater, err := core.NewDutyGater(ctx, cl.bn, core.WithDutyGaterForT(t, func() time.Time { return now }, 2))
+		must(err)
+		verifier, err := parsigex.NewEth2Verifier(cl.bn, cl.pubshares())
+		must(err)
+		base := valgen.Signed(t, k, seed)
+		if p, ok := base.(core.VersionedSignedProposal); ok && p.Version <= 2 {
+			rt.Skip("pre-merge proposal")
+		}
+		nEntries := rapid.IntRange(2, len(cl.vals)).Draw(rt, "entries")
+		badAt := rapid.IntRange(0, nEntries-1).Draw(rt, "invalidEntry")
+		how := rapid.SampledFrom([]string{"other_share", "other_content_old_signature", "zero_signature"}).Draw(rt, "how")
+		set := core.ParSignedDataSet{}
+		for i := 0; i < nEntries; i++ {
+			v := cl.vals[i]
+			s, err := specsign.Sign(cl.bn, v.shares[share], base)
+			must(err)
+			if i == badAt {
+				switch how {
+				case "other_share":
+					s, err = specsign.Sign(cl.bn, v.shares[share%n+1], base)
+					must(err)
+				case "other_content_old_signature":
+					other := valgen.Signed(t, k, seed+7919)
+					r1, e1 := specsign.SigningRoot(cl.bn, other)
+					r2, e2 := specsign.SigningRoot(cl.bn, base)
+					if e1 != nil || e2 != nil || r1 == r2 {
+						rt.Skip("other value has the same signing root")
+					}
+					moved, err := other.SetSignature(s.Signature())
+					if err != nil {
+						rt.Skip("cannot move signature")
+					}
+					s = moved
+				default:
+					z, err := s.SetSignature(make(core.Signature, 96))
+					must(err)
+					s = z
+				}
+			}
+			set[v.corePub] = core.ParSignedData{SignedData: s, ShareIdx: share}
+		}
+		duty := core.Duty{Slot: uint64(rapid.IntRange(0, 1000).Draw(rt, "dutySlot")), Type: k.Duty}
+		pbSet, err := core.ParSignedDataSetToProto(set)
+		if err != nil {
+			rt.Skip("set does not encode")
+		}
+		pubs := cl.pubshares()
+		delivered := 0
+		for rep := 0; rep < 6; rep++ {
+			net := memnet.New()
+			ex := parsigex.NewParSigEx(net.Host(peers[meIdx]), p2p.Send, meIdx, peers, verifier, gater)
+			var got []core.ParSignedDataSet
+			ex.Subscribe(func(_ context.Context, _ core.Duty, s core.ParSignedDataSet) error {
+				got = append(got, s)
+				return nil
+			})
+			f := net.Inject(peers[from], peers[meIdx], parsigex.Protocols()[0], &pbv1.ParSigExMsg{Duty: core.DutyToProto(duty), DataSet: pbSet})
+			net.Take(0)
+			net.Deliver(f)
+			f.Wait()
+			for _, s := range got {
+				delivered++
+				for pk, p := range s {
+					ps, ok := pubs[pk][p.ShareIdx]
+					if !ok {
+						rt.Fatalf("ADMITTED FROM PEER: batch delivered a partial for an unknown validator / share %d", p.ShareIdx)
+					}
+					if verr := specsign.Verify(cl.bn, ps, p.SignedData); verr != nil {
+						rt.Fatalf("ADMITTED FROM PEER: a %d-validator %s set with one invalid entry (%s, validator %d) reached the subscribers; the partial for %s does not verify under its public share: %v", nEntries, k.Name, how, badAt, pk[:10], verr)
+					}
+				}
+			}
+		}
+		vstat.Case(fmt.Sprintf("peerbatch/%s/%d/%d/%s/%d", k.Name, nEntries, badAt, how, seed), true, "peer_batch:"+how, cls("peer_batch_delivered_some", delivered > 0))
+	})
+}
